@@ -674,8 +674,12 @@ func (e *CoreExtension) functionRandom(args ...interface{}) (interface{}, error)
 		return nil, errors.New("max must be greater than min")
 	}
 
-	// Generate a random number in the range [min, max]
-	return min + rand.Intn(max-min+1), nil
+	// Generate a random number in the range [min, max]; the width is computed without overflow
+	width := uint64(max) - uint64(min) + 1
+	if width == 0 || width > math.MaxInt64 {
+		return nil, errors.New("random: range too large")
+	}
+	return min + int(rand.Int63n(int64(width))), nil
 }
 
 func (e *CoreExtension) functionMax(args ...interface{}) (interface{}, error) {
